@@ -1,3 +1,230 @@
+//! C11 — Domain separation between ciphersuites, interfaces and sizes.
+
+use crate::api::*;
 use crate::common::*;
-pub fn scenarios(_ctx: &Ctx) -> Vec<Scenario> { vec![] }
-pub fn finish(_ctx: &Ctx) {}
+use crate::refimpl::SuiteId;
+use bls12_381_plus::G1Projective;
+use group::{Curve, Group};
+use rand::RngCore;
+use serde_json::json;
+use std::collections::HashMap;
+use std::sync::{Mutex, OnceLock};
+
+fn rejected(ctx: &Ctx, kind: &str, case: &str, out: &Outcome, detail: serde_json::Value) {
+    ctx.distinct(case);
+    if out.is_ok() {
+        ctx.violation(&format!("C11:foreign-artefact-accepted/{}", kind), json!({"case":case,"detail":detail}));
+    }
+}
+
+/// artefacts made under suite X (both interfaces) replayed to every other (suite, interface)
+fn replays<X: Sx, Y: Sx>(ctx: &Ctx, idx: u64, l: usize, m: usize) {
+    let mut r = ctx.rng("c11", idx);
+    // the same secret scalar serves both suites: worst case for separation
+    let (sk, pk) = key_from_scalar(crate::c04::rand_scalar(&mut r));
+    let msgs = gen_messages(&mut r, l, 0);
+    let cm = gen_messages(&mut r, m, 0);
+    let hdr = Hdr::gen(&mut r, &[5]);
+    let ph = Hdr::gen(&mut r, &[5]);
+    let (ho, po) = (hdr.as_opt(), ph.as_opt());
+    let base = format!("{}->{}/L{}M{}", name::<X>(), name::<Y>(), l, m);
+    let sig = Sig::<X>::sign(Some(&msgs), &sk, &pk, ho).unwrap().to_bytes();
+    let d: Vec<usize> = (0..l).filter(|_| r.next_u32() % 2 == 0).collect();
+    let dm: Vec<Vec<u8>> = d.iter().map(|&i| msgs[i].clone()).collect();
+    let proof = Pok::<X>::proof_gen(&pk, &sig, ho, po, Some(&msgs), Some(&d)).unwrap().to_bytes();
+    let (com, bf) = Com::<X>::commit(Some(&cm)).unwrap();
+    let cwp = com.to_bytes();
+    let bsig = BSig::<X>::blind_sign(&sk, &pk, Some(&cwp), ho, Some(&msgs)).unwrap().to_bytes();
+    let c: Vec<usize> = (0..m).filter(|_| r.next_u32() % 2 == 0).collect();
+    let dcm: Vec<Vec<u8>> = c.iter().map(|&j| cm[j].clone()).collect();
+    let bproof = Pok::<X>::blind_proof_gen(&pk, &bsig, ho, po, Some(&msgs), Some(&cm), Some(&d), Some(&c), Some(&bf)).unwrap().to_bytes();
+    let zero = BlindFactor::from_bytes(&[0u8; 32]).unwrap();
+
+    // ---- plain signature of X
+    if let Ok(s) = Sig::<Y>::from_bytes(&sig) {
+        let o = ctx.call("verify", &base, None, || s.verify(&pk, Some(&msgs), ho));
+        rejected(ctx, "signature/other-suite", &format!("{base}/sig->verify(Y)"), &o.outcome, json!({"sig":hx(&sig)}));
+    }
+    for split in 0..=l {
+        for (bn, b) in [("none", None), ("zero", Some(&zero)), ("prover", Some(&bf))] {
+            if let Ok(s) = BSig::<X>::from_bytes(&sig) {
+                let o = ctx.call("verify_blind_sign", &base, None, || s.verify_blind_sign(&pk, ho, Some(&msgs[..split]), Some(&msgs[split..]), b));
+                rejected(ctx, "signature/blind-interface", &format!("{base}/sig->vbs(X)/split{split}/{bn}"), &o.outcome, json!({"sig":hx(&sig),"split":split}));
+            }
+            if let Ok(s) = BSig::<Y>::from_bytes(&sig) {
+                let o = ctx.call("verify_blind_sign", &base, None, || s.verify_blind_sign(&pk, ho, Some(&msgs[..split]), Some(&msgs[split..]), b));
+                rejected(ctx, "signature/blind-interface-other-suite", &format!("{base}/sig->vbs(Y)/split{split}/{bn}"), &o.outcome, json!({"sig":hx(&sig),"split":split}));
+            }
+        }
+    }
+    // ---- blind signature of X
+    let mut allm = msgs.clone();
+    allm.extend(cm.iter().cloned());
+    for (mn, ml) in [("signer-msgs", &msgs), ("all-msgs", &allm)] {
+        if let Ok(s) = Sig::<X>::from_bytes(&bsig) {
+            let o = ctx.call("verify", &base, None, || s.verify(&pk, Some(ml), ho));
+            rejected(ctx, "blind-signature/plain-interface", &format!("{base}/bsig->verify(X)/{mn}"), &o.outcome, json!({"sig":hx(&bsig)}));
+        }
+        if let Ok(s) = Sig::<Y>::from_bytes(&bsig) {
+            let o = ctx.call("verify", &base, None, || s.verify(&pk, Some(ml), ho));
+            rejected(ctx, "blind-signature/plain-interface-other-suite", &format!("{base}/bsig->verify(Y)/{mn}"), &o.outcome, json!({"sig":hx(&bsig)}));
+        }
+    }
+    if let Ok(s) = BSig::<Y>::from_bytes(&bsig) {
+        let o = ctx.call("verify_blind_sign", &base, None, || s.verify_blind_sign(&pk, ho, Some(&msgs), Some(&cm), Some(&bf)));
+        rejected(ctx, "blind-signature/other-suite", &format!("{base}/bsig->vbs(Y)"), &o.outcome, json!({"sig":hx(&bsig)}));
+    }
+    // ---- commitment of X to the signer of Y
+    {
+        let o = ctx.call("blind_sign", &base, None, || BSig::<Y>::blind_sign(&sk, &pk, Some(&cwp), ho, Some(&msgs)));
+        rejected(ctx, "commitment/other-suite", &format!("{base}/commit->blind_sign(Y)"), &o.outcome, json!({"commitment":hx(&cwp)}));
+    }
+    // ---- plain proof of X
+    if let Ok(p) = Pok::<Y>::from_bytes(&proof) {
+        let o = ctx.call("proof_verify", &base, None, || p.proof_verify(&pk, Some(&dm), Some(&d), ho, po));
+        rejected(ctx, "proof/other-suite", &format!("{base}/proof->pv(Y)"), &o.outcome, json!({}));
+    }
+    // through the blind verifiers: every split of the U+R positions into L signer + 1 + M committed,
+    // with every consistent assignment of the disclosed data to the two lists
+    let n = l; // U + R of the plain proof
+    for ls in 0..n {
+        if d.contains(&ls) {
+            continue; // flat position ls would be the blind-factor slot
+        }
+        let (mut si, mut sm, mut ci, mut cmx) = (vec![], vec![], vec![], vec![]);
+        for (k, &i) in d.iter().enumerate() {
+            if i < ls { si.push(i); sm.push(dm[k].clone()); } else { ci.push(i - ls - 1); cmx.push(dm[k].clone()); }
+        }
+        if let Ok(p) = Pok::<X>::from_bytes(&proof) {
+            let o = ctx.call("blind_proof_verify", &base, None, || p.blind_proof_verify(&pk, ho, po, Some(ls), Some(&sm), Some(&cmx), Some(&si), Some(&ci)));
+            rejected(ctx, "proof/blind-interface", &format!("{base}/proof->bpv(X)/Ls{ls}"), &o.outcome, json!({"Ls":ls}));
+        }
+        if let Ok(p) = Pok::<Y>::from_bytes(&proof) {
+            let o = ctx.call("blind_proof_verify", &base, None, || p.blind_proof_verify(&pk, ho, po, Some(ls), Some(&sm), Some(&cmx), Some(&si), Some(&ci)));
+            rejected(ctx, "proof/blind-interface-other-suite", &format!("{base}/proof->bpv(Y)/Ls{ls}"), &o.outcome, json!({"Ls":ls}));
+        }
+    }
+    // ---- blind proof of X
+    if let Ok(p) = Pok::<Y>::from_bytes(&bproof) {
+        let o = ctx.call("blind_proof_verify", &base, None, || p.blind_proof_verify(&pk, ho, po, Some(l), Some(&dm), Some(&dcm), Some(&d), Some(&c)));
+        rejected(ctx, "blind-proof/other-suite", &format!("{base}/bproof->bpv(Y)"), &o.outcome, json!({}));
+    }
+    {
+        // flat presentation to the plain verifiers
+        let mut fi = d.clone();
+        fi.extend(c.iter().map(|j| j + l + 1));
+        let mut fm = dm.clone();
+        fm.extend(dcm.iter().cloned());
+        if let Ok(p) = Pok::<X>::from_bytes(&bproof) {
+            let o = ctx.call("proof_verify", &base, None, || p.proof_verify(&pk, Some(&fm), Some(&fi), ho, po));
+            rejected(ctx, "blind-proof/plain-interface", &format!("{base}/bproof->pv(X)"), &o.outcome, json!({}));
+        }
+        if let Ok(p) = Pok::<Y>::from_bytes(&bproof) {
+            let o = ctx.call("proof_verify", &base, None, || p.proof_verify(&pk, Some(&fm), Some(&fi), ho, po));
+            rejected(ctx, "blind-proof/plain-interface-other-suite", &format!("{base}/bproof->pv(Y)"), &o.outcome, json!({}));
+        }
+    }
+    ctx.sample(json!({"replay":base,"artefacts":["signature","blind signature","commitment","proof","blind proof"],"targets":"every other (suite, interface) verifier, every signer/committed split"}));
+}
+
+static POINTS: OnceLock<Mutex<HashMap<[u8; 48], String>>> = OnceLock::new();
+
+fn api_ids(s: SuiteId) -> Vec<(String, Option<Vec<u8>>)> {
+    let o = if s == SuiteId::Sha { SuiteId::Shake } else { SuiteId::Sha };
+    vec![
+        ("api".into(), Some(s.api_id())),
+        ("blind".into(), Some(s.blind_api_id())),
+        ("BLIND_api".into(), Some([b"BLIND_".as_slice(), &s.api_id()].concat())),
+        ("BLIND_blind".into(), Some([b"BLIND_".as_slice(), &s.blind_api_id()].concat())),
+        ("other-suite-api".into(), Some(o.api_id())),
+        ("other-suite-blind".into(), Some(o.blind_api_id())),
+        ("empty".into(), Some(vec![])),
+    ]
+}
+
+/// generator sets: prefix consistency, duplicate-freeness, disjointness across (expander, api_id)
+fn generators<X: Sx>(ctx: &Ctx, n: usize, which: usize) {
+    let (an, api) = api_ids(X::ID)[which].clone();
+    let origin = format!("{}/{}", name::<X>(), an);
+    let g = ctx.call("Generators::create", &format!("{origin}/n{n}"), Some(n as u64 + 8), || Ok::<_, ()>(Generators::create::<X::CS>(n, api.as_deref()))).value;
+    let Some(g) = g else {
+        ctx.violation("C11:generators-create-failed", json!({"origin":origin}));
+        return;
+    };
+    if g.values.len() != n {
+        ctx.violation("C11:generator-count", json!({"origin":origin,"asked":n,"got":g.values.len()}));
+    }
+    let p1s = [SuiteId::Sha.p1(), SuiteId::Shake.p1()];
+    let mut map = POINTS.get_or_init(|| Mutex::new(HashMap::new())).lock().unwrap();
+    for (i, p) in g.values.iter().enumerate() {
+        let case = format!("{origin}/gen{i}");
+        ctx.distinct(&case);
+        if bool::from(p.is_identity()) {
+            ctx.violation("C11:generator-is-identity", json!({"at":case}));
+        }
+        if *p == G1Projective::GENERATOR || p1s.contains(p) || *p == -G1Projective::GENERATOR {
+            ctx.violation("C11:generator-is-fixed-point", json!({"at":case}));
+        }
+        let k = p.to_affine().to_compressed();
+        // "empty" and None are the same api id by definition; every other collision is a violation
+        if let Some(prev) = map.get(&k) {
+            if prev != &case {
+                let same_set = prev.rsplit_once("/gen").map(|x| x.0) == Some(origin.as_str());
+                ctx.violation(if same_set { "C11:duplicate-generator-within-set" } else { "C11:generator-shared-across-sets" }, json!({"first":prev,"again":case,"point":hex::encode(k)}));
+            }
+        } else {
+            map.insert(k, case);
+        }
+    }
+    drop(map);
+    ctx.count("generator_points_in_global_set", g.values.len() as u64);
+    // prefix consistency
+    let mut ks: Vec<usize> = (0..=16.min(n)).collect();
+    let mut p = 32;
+    while p < n {
+        ks.push(p);
+        p *= 2;
+    }
+    if n > 0 {
+        ks.push(n - 1);
+    }
+    for k in ks {
+        let case = format!("{origin}/prefix{k}of{n}");
+        ctx.distinct(&case);
+        let gk = ctx.call("Generators::create", &case, Some(k as u64 + 8), || Ok::<_, ()>(Generators::create::<X::CS>(k, api.as_deref()))).value;
+        match gk {
+            Some(gk) if gk.values.len() == k && gk.values[..] == g.values[..k] && gk.g1_base_point == g.g1_base_point => {}
+            _ => ctx.violation("C11:generators-depend-on-count", json!({"origin":origin,"k":k,"n":n})),
+        }
+    }
+    if which == 6 {
+        // None behaves as the empty api id
+        let gn = Generators::create::<X::CS>(n.min(8), None);
+        if gn.values[..] != g.values[..n.min(8)] {
+            ctx.violation("C11:none-api-id-differs-from-empty", json!({"origin":origin}));
+        }
+    }
+}
+
+pub fn scenarios(ctx: &Ctx) -> Vec<Scenario> {
+    let mut v = Vec::new();
+    let lm: &[(usize, usize)] = ctx.t(&[(0, 0), (1, 0), (2, 1), (3, 3), (5, 2)][..], &[(0, 0), (1, 0), (0, 1), (2, 1), (3, 3), (5, 2), (8, 4), (4, 8)][..]);
+    for rep in 0..ctx.t(4u64, 10u64) {
+        for (k, &(l, m)) in lm.iter().enumerate() {
+            let i = rep * 20 + k as u64;
+            v.push(scenario(format!("replay/sha->shake/L{l}M{m}"), move |c| replays::<Sha, Shake>(c, i, l, m)));
+            v.push(scenario(format!("replay/shake->sha/L{l}M{m}"), move |c| replays::<Shake, Sha>(c, i + 10, l, m)));
+        }
+    }
+    let n = ctx.t(256usize, 1024usize);
+    for which in 0..7usize {
+        v.push(scenario(format!("generators/sha/{which}"), move |c| generators::<Sha>(c, n, which)));
+        v.push(scenario(format!("generators/shake/{which}"), move |c| generators::<Shake>(c, n, which)));
+    }
+    v
+}
+
+pub fn finish(ctx: &Ctx) {
+    let n = POINTS.get().map(|m| m.lock().unwrap().len()).unwrap_or(0);
+    ctx.set_extra("distinct_generator_points_in_global_set", json!(n));
+}
